@@ -292,6 +292,12 @@ class ExprMixin:
             t = self.truth(self.ev(n.test, st, old))
             a = self.ev(n.body, st, old)
             b = self.ev(n.orelse, st, old)
+            # `x if c else None` with x of a plain sort: the value is an Optional of that sort
+            for x_, y_ in ((a, b), (b, a)):
+                if isinstance(x_, T) and isinstance(y_, T) and y_.sort == NONE and x_.sort not in (NONE, OBJ) and not (isinstance(x_.sort, tuple) and x_.sort[0] == "Opt"):
+                    so = ("Opt", x_.sort)
+                    a, b = self.coerce(a, so), self.coerce(b, so)
+                    break
             a, b = self.unify(a, b)
             self.nofork -= 1
             return T(a.sort, f"(ite {t.s} {a.s} {b.s})", a.cls or b.cls)
@@ -653,6 +659,20 @@ class ExprMixin:
             y = "|q_y|"
             st.pc.append(f"(forall ({qdecl}) (! (=> {guard} (seq.contains {r.s} (seq.unit {el.s}))) :pattern ((seq.unit {el.s}))))")
             st.pc.append(f"(forall (({y} {sort_smt(el.sort)})) (! (=> (seq.contains {r.s} (seq.unit {y})) (exists ({qdecl}) (and {guard} (= {y} {el.s})))) :pattern ((seq.contains {r.s} (seq.unit {y})))))")
+            if src == "seq" and len(qvars) == 1 and qvars[0][1] == INT and "$seq" in env_upd:
+                # filtered comprehension over a sequence: r is the subsequence of mapped elements at the positions where the filter holds.
+                # pos(k) = source index of r[k] (strictly increasing), inv(i) = index in r of source position i (for positions that pass the filter)
+                xs, iv = env_upd["$seq"], qvars[0][0]
+                self.qn = getattr(self, "qn", 0) + 1
+                pos, inv = c.fun(f"pos_lc{self.qn}_{c.n}", [INT], INT), c.fun(f"inv_lc{self.qn}_{c.n}", [INT], INT)
+                sub = lambda txt, term: txt.replace(iv, term)
+                pk = f"(|{pos}| |q_pk|)"
+                st.pc.append(f"(forall ((|q_pk| Int)) (! (=> (and (>= |q_pk| 0) (< |q_pk| (seq.len {r.s}))) (and {sub(guard, pk)} (= (seq.nth {r.s} |q_pk|) {sub(el.s, pk)}))) :pattern ((seq.nth {r.s} |q_pk|)) :pattern ({pk})))")
+                st.pc.append(f"(forall ((|q_pk| Int) (|q_pl| Int)) (! (=> (and (>= |q_pk| 0) (< |q_pk| |q_pl|) (< |q_pl| (seq.len {r.s}))) (< {pk} (|{pos}| |q_pl|))) :pattern ({pk} (|{pos}| |q_pl|))))")
+                ik = f"(|{inv}| {iv})"
+                st.pc.append(f"(forall ({qdecl}) (! (=> {guard} (and (>= {ik} 0) (< {ik} (seq.len {r.s})) (= (|{pos}| {ik}) {iv}))) :pattern ((seq.nth {xs.s} {iv})) :pattern ({ik})))")
+                self.note("comprehension-filtered-subsequence", ast.unparse(n)[:50], n.lineno)
+                return r
             self.note("comprehension-membership-only", ast.unparse(n)[:50], n.lineno)
             return r
         self.note("abstracted-expr", "comprehension " + ast.unparse(n)[:40], n.lineno)
